@@ -130,7 +130,11 @@ func TestC16(t *testing.T) {
 		nD = 0
 	}
 	r.Extra("edge_scripts_enumerated", nD)
-	for i := 0; i < max(nA, nB, nC, nD); i++ { // interleave kinds so that workers stay balanced
+	nE := r.Pick(120, 1200) // dial data that stops one byte short, the connection's FIN travelling with the last bytes
+	if race {
+		nE = 0
+	}
+	for i := 0; i < max(nA, nB, nC, nD, nE); i++ { // interleave kinds so that workers stay balanced
 		if i < nD {
 			cases = append(cases, caseSpec{"D", i})
 		}
@@ -142,6 +146,9 @@ func TestC16(t *testing.T) {
 		}
 		if i < nC {
 			cases = append(cases, caseSpec{"C", i})
+		}
+		if i < nE {
+			cases = append(cases, caseSpec{"E", i})
 		}
 	}
 
@@ -252,6 +259,9 @@ func runCase(r *run.R, c caseSpec, edgeSpecs []edgeScript) sessionStats {
 		s, err = runConcurrent(rng)
 	case "D":
 		s, err = runEdgeScript(rng, edgeSpecs[c.idx], extra)
+	case "E":
+		s, err = runShortThenFin(rng, extra)
+		sequential = true
 	}
 	if err != nil {
 		r.Inconclusive(c.id(), "could not start the server: "+err.Error())
@@ -644,6 +654,34 @@ func runConcurrent(rng *rand.Rand) (*session, error) {
 			s.wg.Wait()
 		}
 		sleepV(time.Duration(rng.IntN(5000)) * time.Millisecond)
+	}
+	s.close()
+	return s, nil
+}
+
+// ---- workload E: dial data that ends one byte short, then the stream is half-closed ------------------
+//
+// Requests for a foreign address, one after the other; the client answers the DialDataRequest with data
+// that stops ONE BYTE short (of data, or of the last frame on the wire) - or exactly at the amount, as a
+// control - and half-closes. Every other request arrives over a stream whose FIN travels with the last
+// bytes (the read that hands out the final bytes also returns io.EOF). Limits are out of the way.
+func runShortThenFin(rng *rand.Rand, extra sessionStats) (*session, error) {
+	big := 1 << 20
+	cfg := &sessCfg{RPM: big, PerPeer: big, DialData: big, MaxConc: 2, Policy: "default", DialWait: 0, BadPort: 9}
+	cfg.Peers = genPeers(rng, 3, false)
+	s, err := newSession(cfg)
+	if err != nil {
+		return nil, err
+	}
+	for k := 0; k < 6; k++ {
+		pl := simpleRequest(rng, cfg, rng.IntN(len(cfg.Peers)), "foreign")
+		pl.DD = ddPlan{Shape: pick(rng, []string{"data", "data", "mixed"}), N: pick(rng, []int{4000, 1000, 8186, 100, 300}),
+			Stop: pick(rng, []string{"raw-short1", "raw-short1", "data-short1", "data-exact"}), End: "close",
+			Frag: pick(rng, []int{0, 0, 0, -1, 4096}), Seed: rng.Uint64()}
+		s.launch(pl)
+		s.wg.Wait()
+		extra["short_then_fin_requests"]++
+		sleepV(time.Duration(1+rng.IntN(3)) * time.Second)
 	}
 	s.close()
 	return s, nil
